@@ -1,7 +1,8 @@
 /-
 Model of the discovered-participant bookkeeping of ONE domain participant of dust-dds:
   dds/src/dcps/dcps_domain_participant/discovery_methods.rs
-    add_discovered_participant      (:2553) domain id / domain tag / already-discovered / ignored checks, entry creation
+    add_discovered_participant      domain id / domain tag / ignored checks, entry creation, entry refresh on re-announcement
+                                    (with the repair fixes/D-spdp-1.patch; `addDiscoveredOld` is the code before it)
     remove_discovered_participant   (:2638) (the participant-list part; what happens to matched endpoints is C16)
     remove_stale_participants       (:228)  `now - last_communication_timestamp > lease_duration`, one removal per loop turn
     process_discovered_participants_detector_cache_change (:1874) valid sample -> add, disposed/unregistered -> remove
@@ -66,17 +67,36 @@ def domainIdMatches (s : St) (d : Data) : Bool :=
   | some x => x == s.domainId
   | none => true
 
-/-- the condition of add_discovered_participant (:2587) -/
+/-- is the announcement for us: domain id absent or equal, domain tag equal, participant not ignored -/
+def acceptable (s : St) (d : Data) : Bool :=
+  domainIdMatches s d && (d.tag == s.tag) && !(s.ignored.contains d.key)
+
+/-- `iter_mut().find(key)` … `Some(x) => *x = discovered_participant_info`: the stored entry is replaced by what the
+    participant announces now -/
+def refreshList (d : Data) (now : Nat) : List Entry → List Entry
+  | [] => []
+  | e :: es => if e.key == d.key then ⟨d.key, d.lease, now⟩ :: es else e :: refreshList d now es
+
+/-- add_discovered_participant (repaired, fixes/D-spdp-1.patch); the Bool says whether the participant was NEW (then the
+    builtin endpoints are matched and the local participant announces itself again); a participant that is already listed
+    gets its entry refreshed (lease duration, locators, user data, stamp) -/
+def addDiscovered (s : St) (d : Data) (now : Nat) : St × Bool :=
+  if acceptable s d then
+    if s.list.any (entryHasKey d.key) then ({ s with list := refreshList d now s.list }, false)
+    else ({ s with list := s.list ++ [⟨d.key, d.lease, now⟩] }, true)
+  else (s, false)
+
+/-- the condition of add_discovered_participant before the repair -/
 def accepts (s : St) (d : Data) : Bool :=
   domainIdMatches s d && (d.tag == s.tag) && !(s.list.any (entryHasKey d.key)) && !(s.ignored.contains d.key)
 
-/-- add_discovered_participant; the Bool says whether the participant was added (then the local participant announces
-    itself again, :2604) -/
-def addDiscovered (s : St) (d : Data) (now : Nat) : St × Bool :=
+/-- before fixes/D-spdp-1.patch: nothing at all happens for a participant that is already listed -/
+def addDiscoveredOld (s : St) (d : Data) (now : Nat) : St × Bool :=
   if accepts s d then ({ s with list := s.list ++ [⟨d.key, d.lease, now⟩] }, true) else (s, false)
 
 /-- reception of an SPDP announcement: the builtin reader refreshes the stamp, then the sample is processed -/
 def spdp (s : St) (d : Data) (now : Nat) : St × Bool := addDiscovered (touch s d.key now) d now
+def spdpOld (s : St) (d : Data) (now : Nat) : St × Bool := addDiscoveredOld (touch s d.key now) d now
 
 /-- remove_discovered_participant (participant list part) -/
 def remove (s : St) (k : Nat) : St := { s with list := s.list.filter (entryNotKey k) }
